@@ -95,6 +95,41 @@ fn gen_wide(rng: &mut SplitMix64) -> CircuitText
     CircuitText { nq, nc, ops }
 }
 
+/// A reset (or measurement) of a qubit in superposition that is entangled with others, measured afterwards: the hidden
+/// outcome of the reset decides what the partners read, so it must come from the supplied generator.
+fn gen_entangled_reset(rng: &mut SplitMix64) -> CircuitText
+{
+    let nq = 2 + rng.below(3) as usize;
+    let mut qs: Vec<usize> = (0..nq).collect();
+    rng.shuffle(&mut qs);
+    let mut ops = vec![format!("gate 1 {} H", qs[0])];
+    for &q in qs[1..].iter() { ops.push(format!("gate 2 {} {} CX", qs[0], q)); }
+    if rng.coin() { ops.push(format!("gate 1 {} T", qs[1])); }
+    match rng.below(3) { 0 => ops.push(format!("reset {}", qs[0])), 1 => ops.push(format!("reset {}", qs[1])), _ => { ops.push(format!("reset {}", qs[0])); ops.push(format!("gate 1 {} H", qs[0])); ops.push(format!("reset {}", qs[0])); } }
+    let cb: Vec<usize> = (0..nq).collect();
+    ops.push(format!("measureall {} {} Z", cb.len(), join(&cb)));
+    CircuitText { nq, nc: nq, ops }
+}
+
+/// The run under test preceded, on the same thread, by the FAILING execution of another circuit: the failure happens
+/// inside a conditional operation (or a measurement) after 1-bits were written.  Nothing of it may leak into the next run.
+fn run_after_failed_run(ct: &CircuitText, shots: usize, seed: u64, repr: &str) -> String
+{
+    let bad: Vec<CircuitText> = vec![
+        // conditional gate with the wrong number of qubits: InvalidNrBits at run time, after the register holds ones
+        CircuitText { nq: 2, nc: 3, ops: vec!["gate 1 0 X".into(), "gate 1 1 X".into(), "measureall 2 0 1 Z".into(), "cond 2 0 1 3 1 0 CX".into()] },
+        // non-Clifford conditional gate forced onto the stabilizer representation
+        CircuitText { nq: 2, nc: 3, ops: vec!["gate 1 0 X".into(), "measure 0 2 Z".into(), "measure 0 0 Z".into(), "cond 2 0 2 3 1 1 T".into()] },
+        // unconditional gate with the wrong arity after measurements
+        CircuitText { nq: 3, nc: 3, ops: vec!["gate 1 2 X".into(), "measureall 3 2 1 0 Z".into(), "gate 1 0 CX".into()] },
+    ];
+    for (i, b) in bad.iter().enumerate()
+    {
+        let _ = run_once(b, shots.max(4), seed ^ 0x5555, if i == 1 { "stabilizer" } else { "vector" });
+    }
+    run_once(ct, shots, seed, repr)
+}
+
 fn parse_ct(nq: usize, nc: usize, ops: &str) -> CircuitText
 {
     CircuitText { nq, nc, ops: ops.split(" ; ").map(|s| s.to_string()).collect() }
@@ -120,10 +155,12 @@ fn main()
     let cfg_s = GenCfg { clifford: true, ..cfg_v };
     let me = std::env::current_exe().unwrap();
     let nwide = if thorough() { 120 } else { 24 };
-    for i in 0..ncirc + nwide
+    let nreset = if thorough() { 120 } else { 24 };
+    for i in 0..ncirc + nwide + nreset
     {
-        let wide = i >= ncirc;
-        let (ct, repr) = if wide { (gen_wide(&mut rng), ["vector", "auto"][i % 2]) }
+        let wide = i >= ncirc && i < ncirc + nwide;
+        let (ct, repr) = if i >= ncirc + nwide { (gen_entangled_reset(&mut rng), ["vector", "auto", "stabilizer"][i % 3]) }
+            else if wide { (gen_wide(&mut rng), ["vector", "auto"][i % 2]) }
             else if i % 2 == 0 { (gen_circuit(&cfg_v, &mut rng), "vector") } else { (gen_circuit(&cfg_s, &mut rng), ["stabilizer", "auto", "vector"][(i / 2) % 3]) };
         let shots = if wide { [2usize, 7, 40][i % 3] } else { [1usize, 5, 64, 300][i % 4] };
         let seed = rng.next();
@@ -141,6 +178,12 @@ fn main()
                 let r = run_on_used_object(&ct, shots, seed, repr, *same_shots, *reex);
                 if r != first { verdict += &format!(" used-object-differs(same_shots={},reexecute={})[{}|{}]", same_shots, reex, first, r); break; }
             }
+        }
+        // the same seeded run after FAILED executions of other circuits on this thread
+        if first.starts_with("reg:") && (thorough() || i % 3 == 0)
+        {
+            let r = run_after_failed_run(&ct, shots, seed, repr);
+            if r != first { verdict += &format!(" differs-after-failed-runs[{}|{}]", first, r); }
         }
         // 16 threads
         let handles: Vec<_> = (0..16).map(|t| { let ct = ct.clone(); let repr = repr.to_string();
